@@ -12,13 +12,13 @@ Fixpoint bools_eqb (a b : list bool) : bool :=
   match a, b with [], [] => true | x :: a', y :: b' => Bool.eqb x y && bools_eqb a' b' | _, _ => false end.
 
 (* (options, files, destination kind, write buffer size, stream?, fault plan, header data size preset to the true one?,
-    observed error flag per call, observed destination content) *)
-Definition check_case (c : ecfg * list ifile * wkind * Z * bool * option fault * bool * list bool * bytes) : bool :=
-  let '(cfg, fs, kind, bufsize, stream, flt, preset, errs, content) := c in
+    bytes the destination held before (cursor at their end), observed error flag per call, observed destination content) *)
+Definition check_case (c : ecfg * list ifile * wkind * Z * bool * option fault * bool * bytes * list bool * bytes) : bool :=
+  let '(cfg, fs, kind, bufsize, stream, flt, preset, pre, errs, content) := c in
   match all_parts cfg (map mk_file fs) with
   | None => false
   | Some ps =>
-    let w0 := wst_new kind bufsize [] flt in
+    let w0 := wst_new kind bufsize pre flt in
     let '(merrs, w) := if stream then stream_chain w0 ps 0 []
                        else Writer.encode_chain w0 (map (fun p => (p, if preset then p_datasize p else 0)) ps) [] in
     bools_eqb merrs errs && list_N_eqb (final_bytes w) content
